@@ -1,6 +1,6 @@
 """Drives the real parser / advtree / TreeCleaner of the snapshot on wikitext documents.
 
-  python -m vt.harness.c05_impl run <pass_time_limit_s>      stdin: JSON lines {"id", "text"}   stdout: JSON lines
+  python -m vt.harness.c05_impl run <pass_time_limit_s>      stdin: JSON lines {"id", "text"[, "pre": [texts cleaned first]]}   stdout: JSON lines
   python -m vt.harness.c05_impl shrink <pass_time_limit_s>   stdin: JSON lines {"text", "key"}  stdout: JSON lines {"text", "evals"}
 
 For every document: parse, build_advanced_tree, snapshot; then every cleaner pass called DIRECTLY
@@ -38,7 +38,17 @@ class TimeLimit(BaseException):
     pass
 
 
+_BUDGET = {"t0": 0.0, "limit": 0.0}
+
+
 def _alarm(_sig, _frm):
+    """ITIMER_VIRTUAL is tick-sampled: on an overcommitted (virtual) machine it can fire long before the process has really
+    used that much CPU.  The verdict is taken on the precise per-process CPU clock (CLOCK_PROCESS_CPUTIME_ID): if the budget
+    is not used up yet, re-arm for the remainder instead of raising."""
+    used = time.process_time() - _BUDGET["t0"]
+    if used < _BUDGET["limit"]:
+        signal.setitimer(signal.ITIMER_VIRTUAL, max(0.05, _BUDGET["limit"] - used), 0.2)
+        return
     raise TimeLimit()
 
 
@@ -64,6 +74,8 @@ def limited(fun, limit):
     t0 = time.time()
     old_limit = sys.getrecursionlimit()
     sys.setrecursionlimit(RECURSION_HEADROOM + _stack_depth())
+    _BUDGET["t0"] = time.process_time()
+    _BUDGET["limit"] = limit
     signal.setitimer(signal.ITIMER_VIRTUAL, limit, 0.2)
     try:
         try:
@@ -383,6 +395,11 @@ def main():
             continue
         job = json.loads(line)
         if mode == "run":
+            for pre in job.get("pre", []):       # documents cleaned earlier in the same process (state that leaks between articles)
+                try:
+                    analyse(pre, limit, full=True)
+                except BaseException:
+                    pass
             try:
                 r = analyse(job["text"], limit, full=job.get("full", True))
             except BaseException as e:  # harness problem
